@@ -318,7 +318,18 @@ func runACLHistory(tr *Trace, h int, r *rand.Rand, length int, cfgFile string, t
 				name = "u1"
 			}
 			toks := randAclToks(r)
-			if r.Intn(2) == 0 {
+			if r.Intn(4) == 0 {
+				// an account with everything allowed except keys, whose read and write patterns differ:
+				// commands that read AND write the same key, or mix keys, are where the checks interact
+				toks = []aclTok{{"on", ""}, {pick(r, []string{"pw", "nopass"}), "p1"},
+					{"rkey", pick(r, aclKeyPats)}, {"wkey", pick(r, aclKeyPats)}}
+				if toks[1].K == "nopass" {
+					toks[1].V = ""
+				}
+				if r.Intn(2) == 0 {
+					toks = append(toks, aclTok{"rkey", pick(r, aclKeyPats)})
+				}
+			} else if r.Intn(2) == 0 {
 				// a usable account: enabled, with a credential, and some breadth
 				toks = append([]aclTok{{"on", ""}, {pick(r, []string{"pw", "hash", "nopass"}), "p1"}}, toks...)
 				if toks[1].K == "nopass" {
@@ -396,6 +407,9 @@ func runACLHistory(tr *Trace, h int, r *rand.Rand, length int, cfgFile string, t
 		case x < 92: // probe
 			c := 1 + r.Intn(3)
 			p := pick(r, aclProbes)
+			if r.Intn(6) == 0 {
+				p = aclProbes[20] // getdel: the same key is read and written
+			}
 			var a []string
 			for k := 0; k < p.n; k++ {
 				if p.kind == "chans" {
